@@ -461,7 +461,13 @@ func (h *vhandler) Filecmd(r *Request) error {
 			return os.ErrNotExist
 		}
 		delete(h.files, r.Filepath)
-	case "Rename":
+	case "Link":
+		f := h.files[r.Filepath]
+		if f == nil {
+			return os.ErrNotExist
+		}
+		h.files[r.Target] = f
+	case "Rename", "PosixRename":
 		f := h.files[r.Filepath]
 		if f == nil {
 			return os.ErrNotExist
